@@ -10,7 +10,7 @@ import Generated.Tables
 * base       `e<u:name>` external name · `u<id>` class of the project
 * statements in prefix notation
     `class <name> <bases|-> <decos|-> <doc|-> ( body )`      `def <name> <0|1> <decos|-> <doc|->`
-    `asg <name> <lit> <ann|->`   `ann <name> <ann>`   `str <text>`   `blk <i|t|w|f> ( body ) ( tail )`
+    `asg <name> <lit> <ann|->`   `ann <name> <ann>`   `str <text>`   `blk <i|t|w|f|e> ( body ) ( tail )`   `alias <name> <src>`   `wrap <name> <c|s|p> <src>`
     `del <name>`   `doc <name> <text>` (`name.__doc__ = text`)   `main ( body )`   `cmp <d|m|n> <eq|ne|is|isnot> <d|m|n> <0|1 negated> ( body )`   `old <name> <c|s>`   `oth`
 * decos  comma separated: `c s p` (bare) `C S P` (`builtins.` spelling) `set=<x>` `del=<x>` `ov` `o=<name>` `un`
 * lit    `i f c s b B N X` · `L(…)` `T(…)` `S(…)` `D(keys|values)`
@@ -103,7 +103,7 @@ def parseLitTok (tok : String) : Option Lit :=
   | _ => none
 
 def parseBlockKind : String → Option BlockKind
-  | "i" => some .ifTaken | "t" => some .try | "w" => some .with | "f" => some .for | _ => none
+  | "i" => some .ifTaken | "t" => some .try | "w" => some .with | "f" => some .for | "e" => some .elseTaken | _ => none
 
 mutual
 def parseStmt : Nat → List String → Option (Stmt × List String)
@@ -156,6 +156,15 @@ def parseStmt : Nat → List String → Option (Stmt × List String)
     let n ← parseName n
     let w ← match w with | "c" => some Wrap.classmethod | "s" => some Wrap.staticmethod | _ => none
     some (.oldStyle n w, rest)
+  | _+1, "alias" :: n :: src :: rest => do
+    let n ← parseName n
+    let src ← parseName src
+    some (.aliasAssign n src, rest)
+  | _+1, "wrap" :: n :: d :: src :: rest => do
+    let n ← parseName n
+    let d ← match d with | "c" => some Desc.classmethod | "s" => some Desc.staticmethod | "p" => some Desc.property | _ => none
+    let src ← parseName src
+    some (.wrapAssign n d src, rest)
   | _+1, "del" :: n :: rest => do
     let n ← parseName n
     some (.delName n, rest)
